@@ -18,6 +18,7 @@
 -/
 import Umya.Lemmas.XmlWriteNF
 import Umya.Lemmas.XmlWriteGen
+import Umya.Lemmas.CellNodeNF
 import Umya.Thm.C02
 namespace Umya.Thm.C02
 open Umya.XmlWrite Umya.XmlEsc
@@ -143,25 +144,31 @@ theorem C02_cell_bytes_decode (F : NumFmt) (tbl : Table) (c : Cell F.Num) (tbl' 
   obtain ⟨pkg, h1, h2⟩ := hd tbl'' hx
   exact ⟨pkg, h1, by rw [hp]; simp [h2]⟩
 
+/-- every `<c>` and every `<si>` the model renders is in the reader's normal form (no empty text node, no two
+    adjacent text nodes): the only text nodes come from character data that is not empty, and such data does not
+    read as the empty text -/
+theorem C02_cell_node_normal_form (xf : Nat) (cx : CellX) (n : Node) (h : cellNode xf cx = some n) : isNF n = true :=
+  cellNode_isNF xf cx n h
+
+theorem C02_si_node_normal_form (x : SiX) (n : Node) (h : siNode x = some n) : isNF n = true := siNode_isNF x n h
+
 /-- the same with the default writer calls for the element of the fact (`ofNode`: texts through
-    `write_text_node`, childless elements in either form), under the decidable conditions on the tree -/
+    `write_text_node`, childless elements in either form), under the decidable condition on names and
+    characters of the tree (`wfNodes`); the normal-form condition is a theorem (`C02_cell_node_normal_form`) -/
 theorem C02_cell_bytes_decode_default (F : NumFmt) (tbl : Table) (c : Cell F.Num) (tbl' : Table) (cx : CellX)
     (h : writeTo F tbl c = some (tbl', some cx)) (xf : Nat) (selfClose : Bool) :
     ∃ n as ks, cellNode xf cx = some (.elem n as ks) ∧
-      (wfNodes [.elem n as ks] = true → isNFKids ks = true →
+      (wfNodes [.elem n as ks] = true →
         ∀ tbl'' : Table, Extends tbl'' tbl' →
           ∃ pkg, sstParts (tbl''.map siOf) = some pkg ∧
             (parse (renderDoc (ofNode selfClose (.elem n as ks)))).map (decodeCell (sharedStrings pkg sstPath))
               = some (fileView F xf c, [])) := by
   obtain ⟨_, node, hn, hd⟩ := C02_cell_decodes F tbl c tbl' cx h xf
-  have hshape : ∃ n as ks, node = .elem n as ks := by
-    simp only [cellNode, Option.bind_eq_some_iff] at hn
-    obtain ⟨as, _, f, _, v, _, i, _, h5⟩ := hn
-    exact ⟨_, _, _, (Option.some.inj h5).symm⟩
-  obtain ⟨n, as, ks, rfl⟩ := hshape
-  refine ⟨n, as, ks, hn, fun hwf hnf tbl'' hx => ?_⟩
+  obtain ⟨as, ks, rfl⟩ := cellNode_shape xf cx node hn
+  refine ⟨_, as, ks, hn, fun hwf tbl'' hx => ?_⟩
   obtain ⟨pkg, h1, h2⟩ := hd tbl'' hx
-  exact ⟨pkg, h1, by rw [C02_bytes_parse_tree selfClose n as ks hwf hnf]; simp [h2]⟩
+  have hnf : isNFKids ks = true := cellNode_isNF xf cx _ hn
+  exact ⟨pkg, h1, by rw [C02_bytes_parse_tree selfClose _ as ks hwf hnf]; simp [h2]⟩
 
 /-- **One shared-string item, from characters**: likewise for `<si>` -/
 theorem C02_si_bytes_decode (it : Item) :
@@ -170,6 +177,18 @@ theorem C02_si_bytes_decode (it : Item) :
         (parse (renderDoc w)).map rstText = some (itemText it) := by
   obtain ⟨node, hn, hr⟩ := C02_si_decodes it
   exact ⟨node, hn, fun w hw hwf he => by rw [C02_bytes_parse w hw hwf, he]; simp [hr]⟩
+
+/-- … and with the default writer calls: the `<si>` of any item, rendered as characters, reads back as the item's text -/
+theorem C02_si_bytes_decode_default (it : Item) (selfClose : Bool) :
+    ∃ ks, siNode (siOf it) = some (.elem ['s', 'i'] [] ks) ∧
+      (wfNodes [.elem ['s', 'i'] [] ks] = true →
+        (parse (renderDoc (ofNode selfClose (.elem ['s', 'i'] [] ks)))).map rstText = some (itemText it)) := by
+  obtain ⟨node, hn, hr⟩ := C02_si_decodes it
+  obtain ⟨ks, rfl⟩ := siNode_shape _ node hn
+  refine ⟨ks, hn, fun hwf => ?_⟩
+  have hnf : isNFKids ks = true := siNode_isNF _ _ hn
+  rw [C02_bytes_parse_tree selfClose _ [] ks hwf hnf]
+  simp [hr]
 
 /-- non-vacuity of `C02_cell_bytes_decode`: the cell B2 = "a&lt;CR" with style 5 under the formula `A1<2`, written
     as the code writes it (`<f>` and a `str` value through `write_text_node_conversion`) -/
